@@ -200,8 +200,8 @@ def handle (j : Json) : R (List (String × Json)) := do
   let mut first := true
   let mut tainted := false
   for st in steps do
-    -- a step applied to an inconsistent solution proves nothing (the property's premise fails): judging stops once the
-    -- diverse LKH operator (known finding S47) has broken a solution, and only its own step is reported
+    -- a step applied to an inconsistent solution proves nothing (the property's premise fails): judging of a history stops at
+    -- the first step that breaks something, and that step is what is reported
     if tainted then continue
     let badBefore := bad.size
     let op ← strF st "op"
@@ -271,7 +271,7 @@ def handle (j : Json) : R (List (String × Json)) := do
       if !rp.isEmpty then
         okReplay := false
         bad := bad.push (note ("replay: " ++ "; ".intercalate (rp.take 2)))
-    if op == "lkh_diverse" && bad.size > badBefore then tainted := true
+    if bad.size > badBefore then tainted := true
   -- the same problem usually persists over the following steps: it is listed once, with the step that showed it first
   let distinct : Array Json := bad.foldl (fun acc nt =>
     if acc.any (fun x => (x.getObjVal? "what").toOption == (nt.getObjVal? "what").toOption) then acc else acc.push nt) #[]
@@ -282,7 +282,7 @@ def handle (j : Json) : R (List (String × Json)) := do
                                  ("not_stale_at_handover", Json.bool okStale), ("assigned_part_feasible", Json.bool okFeasible),
                                  ("rendered_solution_partition", Json.bool okSolPartition), ("rendered_solution_replay", Json.bool okReplay)]),
           ("info", Json.mkObj [("steps", jNat steps.length), ("bad", Json.arr (distinct.extract 0 6)), ("distinct_problems", jNat distinct.size),
-                               ("tainted_by_lkh_diverse", Json.bool tainted),
+                               ("stopped_at_first_failing_step", Json.bool tainted),
                                ("ops", Json.arr (steps.filterMap (fun s => (s.getObjVal? "op").toOption)).toArray)])]
 
 end Drv.C04
